@@ -731,7 +731,9 @@ def run(rep):
             blocks.append(b['block'])
     if not blocks:
         raise core.MachineryError('TLC emitted no behaviours for ' + cfg)
-    blocks.sort(key=core.canonical)
+    # smallest blocks first, so that the case stored for a violation is a minimal witness
+    blocks.sort(key=lambda b: (b['n'], b['maxTime'], b['lag'], b['exo'], b['cst'], int(b['useT']), int(b['ic']),
+                               b['tol'], core.canonical(b)))
     rep.extra['blocks_without_user_time'] = sum(1 for b in blocks if b['userT'] == 'none')
     judge(rep, blocks)
 
